@@ -99,6 +99,9 @@ def main():
                     sh("git checkout -- .", "/repo")
             caught = sorted(p for p, x in det.items() if x["exit"] == 1)
             errs = sorted(p for p, x in det.items() if x["exit"] not in (0, 1))
+            if "at_import" not in meta:
+                # what the checks of the day reported when the change was first evaluated (before any rule was written in response to it)
+                meta["at_import"] = {"caught_by": meta.get("caught_by", []), "rules": sorted({v.get("rule") for p2 in meta.get("caught_by", []) for v in meta.get("reported", {}).get(p2, []) if v.get("rule")})}
             meta["caught_by"] = caught
             meta["caught_by_target_property"] = pid in caught
             meta["checker_errors"] = {p: det[p]["tail"][-200:] for p in errs}
